@@ -8,6 +8,7 @@ import MdpaxV.Model.Batch
 import MdpaxV.Model.Backup
 import MdpaxV.Model.Loop
 import MdpaxV.Model.Solvers
+import MdpaxV.Model.SemiAsync
 open MdpaxV
 
 /-! parsing / printing -/
@@ -63,6 +64,8 @@ structure Solver where
   reset : Option (List Rat)
   f : Nat
   st : SState Rat
+  perms : List (Nat × Option (List Nat)) := []   -- semi-async: permutation used for iteration k
+  chooseReal : Bool := false                      -- semi-async: does the real update win against padding
 
 structure DState where
   probs : List (String × TabP) := []
@@ -99,6 +102,23 @@ def fState (s : SState Rat) (conv : Bool) (sweeps : Nat) (saves : List (Nat × S
   let hist := match s.hist with | none => "_" | some h => fList2 fRat h
   s!"iter={s.iter} conv={conv} sweeps={sweeps} values={fList fRat s.values} policy={match s.policy with | none => "_" | some p => fList toString p} gain={fRat s.gain} hidx={s.hidx} hist={hist} saves={fList toString (saves.map (·.1))} savevals={fList2 fRat (saves.map (·.2.values))}"
 
+def rabs (x : Rat) : Rat := if x < 0 then -x else x
+
+/-- min over the sweeps of one solve call of |measure − threshold| (decision margin; diagnostics only) -/
+def minMargin (measure : SState Rat → Option Rat) (step : SState Rat → SState Rat × Bool) (thr : Rat) :
+    Nat → SState Rat → Option Rat → Option Rat
+  | 0, _, acc => acc
+  | k+1, s, acc =>
+    let acc' := match measure s with
+      | none => acc
+      | some m => match acc with
+        | none => some (rabs (m - thr))
+        | some a => some (min a (rabs (m - thr)))
+    let r := step s
+    if r.2 then acc' else minMargin measure step thr k r.1 acc'
+
+def fOptRat : Option Rat → String | some r => fRat r | none => "_"
+
 def handle (d : DState) (line : String) : Except String (DState × String) := do
   let toks := (line.trimAscii.toString.splitOn " ").filter (· ≠ "")
   match toks with
@@ -129,6 +149,14 @@ def handle (d : DState) (line : String) : Except String (DState × String) := do
         let nv := sweep p.P c γ V 0
         let pol := policy p.P c γ V 0
         pure (d, s!"values={fList fRat nv} policy={fList toString pol} span={fRat (spanOf nv V)} maxdiff={fRat (maxDiff nv V)}")
+    | "semisweep" => do
+        let p ← getP d (← arg a "id"); let c ← pCfg a
+        let γ ← pRat (← arg a "gamma"); let V ← pList pRat (← arg a "V")
+        let perm ← match argD a "perm" "_" with
+          | "_" => pure none
+          | v => do pure (some (← pList pNat v))
+        let ch := argD a "choose" "pad" = "real"
+        pure (d, s!"values={fList fRat (semiSweep p.P c γ V perm (fun _ => ch) 0)}")
     | "qrow" => do
         let p ← getP d (← arg a "id")
         let γ ← pRat (← arg a "gamma"); let V ← pList pRat (← arg a "V"); let s ← pNat (← arg a "s")
@@ -178,14 +206,31 @@ def handle (d : DState) (line : String) : Except String (DState × String) := do
           let p ← getP d sv.pid
           if k = 0 then pure (d, "error=UnboundLocalError") else
           if sv.kind = Kind.periodic && sv.st.hist.isNone then pure (d, "error=TypeError") else
+          -- semi-async: permutations of this call, for iterations iter+1, iter+2, …
+          let newPerms ← match a.lookup "perms" with
+            | none => pure []
+            | some v => do
+                let ps ← (v.splitOn ";").mapM fun t => if t = "_" then pure none else do pure (some (← pList pNat t))
+                pure (ps.zipIdx.map fun (q, i) => (sv.st.iter + 1 + i, q))
+          let sv := { sv with perms := newPerms ++ sv.perms,
+                              chooseReal := (argD a "choose" (if sv.chooseReal then "real" else "pad")) = "real" }
+          let permFn : Nat → Option (List Nat) := fun k => (sv.perms.lookup k).getD none
+          let chooseFn : Nat → Bool := fun _ => sv.chooseReal
           let r := match sv.kind with
             | Kind.vi => viSolve p.P sv.c sv.γ sv.thr sv.test sv.f k sv.st
             | Kind.rvi => rviSolve p.P sv.c sv.γ sv.ε sv.f k sv.st
             | Kind.periodic => periodicSolve p.P sv.c sv.γ sv.ε sv.period sv.clear sv.f k sv.st
             | Kind.pi => piSolve p.P sv.c sv.γ sv.thr sv.test sv.budget sv.reset sv.f k sv.st
-            | Kind.semi => viSolve p.P sv.c sv.γ sv.thr sv.test sv.f k sv.st
+            | Kind.semi => semiSolve p.P sv.c sv.γ sv.thr sv.test permFn chooseFn sv.f k sv.st
+          let mm := match sv.kind with
+            | Kind.vi => minMargin (fun s => some (viMeasure p.P sv.c sv.γ sv.test s)) (viStep p.P sv.c sv.γ sv.thr sv.test) sv.thr k sv.st none
+            | Kind.rvi => minMargin (fun s => some (rviMeasure p.P sv.c sv.γ s)) (rviStep p.P sv.c sv.γ sv.ε) sv.ε k sv.st none
+            | Kind.periodic => minMargin (periodicMeasureNext p.P sv.c sv.γ sv.period) (periodicStep p.P sv.c sv.γ sv.ε sv.period) sv.ε k sv.st none
+            | Kind.semi => minMargin (fun s => some (semiMeasure p.P sv.c sv.γ sv.test permFn chooseFn s)) (semiStep p.P sv.c sv.γ sv.thr sv.test permFn chooseFn) sv.thr k sv.st none
+            | Kind.pi => none
           let sv' := { sv with st := r.state }
-          pure ({ d with solvers := (sid, sv') :: d.solvers.filter (·.1 ≠ sid) }, fState r.state r.converged r.sweeps r.saves)
+          pure ({ d with solvers := (sid, sv') :: d.solvers.filter (·.1 ≠ sid) },
+                fState r.state r.converged r.sweeps r.saves ++ s!" minmargin={fOptRat mm}")
     | _ => throw s!"unknown command {cmd}"
 
 partial def loop (h : IO.FS.Stream) (out : IO.FS.Stream) (d : DState) : IO Unit := do
